@@ -247,6 +247,18 @@ def msched_of(trace):
 OPTS = dict(grace=2.0, hang_timeout=4.0, step_budget=250, max_steps=4000)
 
 
+def _points(filename, lineno, funcname):
+    """Scheduling points of the "label" granularity: only the labelled program points."""
+    return _S["labels"].get((os.path.basename(filename), lineno)) is not None
+
+
+def opts(case):
+    o = dict(OPTS)
+    if case.get("gran", "label") == "label" and not _S.get("label_error"):
+        o["points"] = _points
+    return o
+
+
 def observe(b, res):
     ms, bad = msched_of(res.trace)
     if _S.get("label_error"):
@@ -262,7 +274,7 @@ def run(case):
     if "explore" in case:
         return explore(case)
     b = Build(case)
-    res = sched.run(b.bodies(), _S["files"], schedule=case["sched"], strict=True, **OPTS)
+    res = sched.run(b.bodies(), _S["files"], schedule=case["sched"], strict=True, **opts(case))
     return observe(b, res)
 
 
@@ -278,7 +290,7 @@ def explore(case):
     n = 0
     exhaustive = True
     for res in sched.explore(factory, _S["files"], preemptions=ex.get("preempt", 2),
-                             limit=ex.get("limit"), **OPTS):
+                             limit=ex.get("limit"), **opts(case)):
         n += 1
         b = made.pop()
         ms, bad = msched_of(res.trace)
@@ -292,7 +304,7 @@ def explore(case):
     if ex.get("random"):
         import random
         rng = random.Random(ex.get("seed", 0))
-        for res in sched.random_runs(factory, _S["files"], ex["random"], rng, **OPTS):
+        for res in sched.random_runs(factory, _S["files"], ex["random"], rng, **opts(case)):
             n += 1
             made.pop()
             ms, bad = msched_of(res.trace)
